@@ -24,13 +24,17 @@ Spec == Init /\ [][Next]_vars
 Val == IF t = 45 THEN <<<<1>>, <<1>>, <<2>>, <<10, 0, 0, 1>>, <<1, 2, 3>>>>
        ELSE LET sc == Schema(t) IN Patch(t, [i \in 1 .. Len(sc) |-> Default(sc[i])])
 NatRd == EncodeRData(t, Val)
-Sentinel(i) == EncRecord([name |-> <<<<115>>, <<48 + i>>>>, type |-> 1, class |-> 1, cf |-> FALSE,
-                          ttl |-> <<0, 0, 0, i>>, rd |-> <<<<192, 0, 2, i>>>>])
+Sentinel(i) == EncRecord([name |-> <<<<115>>, <<48 + i>>>>, type |-> 1, class |-> 1, cf |-> (i = 2),
+                          ttl |-> IF i = 2 THEN <<255, 255, 255, 254>> ELSE <<0, 0, 0, i>>, rd |-> <<<<192, 0, 2, i>>>>])
 \* padding that itself looks like the start of a record
 Pad(n) == LET base == Sentinel(9) IN [i \in 1 .. n |-> base[((i - 1) % Len(base)) + 1]]
 
 Owner == <<<<111>>, La>>
-RRHead(len) == EncodeNamePlain(Owner) \o BE16(t) \o BE16(1) \o <<0, 0, 0, 60>> \o BE16(len)
+\* envelope values at their boundaries, spread over the record types: TTLs with the top bit set, the maximum,
+\* zero; the cache-flush bit in the class field (not for OPT, whose class and TTL fields mean something else)
+TtlOf == CASE t % 4 = 0 -> <<0, 0, 0, 60>> [] t % 4 = 1 -> <<128, 0, 0, 0>> [] t % 4 = 2 -> <<255, 255, 255, 255>> [] OTHER -> <<127, 255, 255, 255>>
+ClassOf == IF t = 41 THEN 1 ELSE IF t % 3 = 0 THEN 32769 ELSE IF t % 3 = 1 THEN 1 ELSE 3
+RRHead(len) == EncodeNamePlain(Owner) \o BE16(t) \o BE16(ClassOf) \o (IF t = 41 THEN <<0, 0, 0, 0>> ELSE TtlOf) \o BE16(len)
 
 First ==
   CASE mode = "len-only" -> RRHead(Len(NatRd) + delta) \o NatRd          \* length field lies, bytes unchanged
